@@ -2,6 +2,7 @@ package main
 
 import (
 	"fmt"
+	"go/token"
 	"go/types"
 	"os"
 	"path/filepath"
@@ -305,6 +306,14 @@ func (w *World) preRegister(pkgDirs []string) {
 						case *ssa.UnOp:
 							if gl, ok := x.X.(*ssa.Global); ok {
 								w.m.compGlobal(gl)
+							}
+							if x.Op == token.MUL {
+								if pt, ok := x.X.Type().Underlying().(*types.Pointer); ok {
+									switch pt.Elem().Underlying().(type) {
+									case *types.Basic, *types.Pointer, *types.Slice, *types.Map, *types.Interface, *types.Signature, *types.Chan:
+										w.m.compCell(w.m.sortOf(pt.Elem()))
+									}
+								}
 							}
 						case *ssa.Store:
 							if gl, ok := x.Addr.(*ssa.Global); ok {
